@@ -7,6 +7,7 @@
 -/
 import Std.Data.HashMap
 import Hx.Spec.Chk
+import Hx.Scan.Dispatch
 namespace Hx
 
 /-! ### text → structure -/
@@ -424,11 +425,20 @@ def judgeScan (st : JState) (caseLine : String) (ctoks otoks : List String) : JS
     match cl.toNat?, unhex? hex, (otoks.headD "").toNat? with
     | some c, some buf, some n =>
       let want := (buf.takeWhile (clsOf c)).length
+      -- the hand-written model of this backend's scanner (tie between Hx/Scan/* and the code)
+      let pick (b : Backend) : Scanner := if c == 0 then b.uri else if c == 1 then b.value else b.name
+      let mdl : Option Nat :=
+        if be == "0" then pick (Swar.backend 8 true) buf
+        else if be == "1" then pick (X86.sse42Backend 8) buf
+        else if be == "2" then pick (X86.avx2Backend 8) buf
+        else some want
       let st := ((st.bump s!"cases.scan.b{be}.c{cl}")).bump "nontrivial.scan"
       let st := if want < buf.length then st.bump "scan.stops_inside" else st
       let st := st.sample s!"scan.b{be}.c{cl}" caseLine
-      (st, if n == want then [] else
-        [mkFail "C12" true "scanner did not stop at the first out-of-class byte" caseLine s!"real {n} expected {want}"])
+      (st, (if n == want then [] else
+        [mkFail "C12" true "scanner did not stop at the first out-of-class byte" caseLine s!"real {n} expected {want}"]) ++
+        (if mdl == some n then [] else
+        [mkFail "C12" false "scanner model (Hx/Scan) disagrees with the real backend" caseLine s!"real {n} model {mdl}"]))
     | _, _, _ =>
       if otoks.headD "" == "PANIC" then (st, [mkFail "C12" true "scanner panicked" caseLine "PANIC"]) else
       (st.bump "badline", [s!"BADLINE {caseLine}"])
@@ -437,11 +447,15 @@ def judgeScan (st : JState) (caseLine : String) (ctoks otoks : List String) : JS
     match cl.toNat?, unhex? hex, (otoks.headD "").toNat? with
     | some c, some blk, some n =>
       let want := (blk.takeWhile (clsOf c)).length
+      let mdl : Option Nat := if c == 0 then Swar.uriKernel 8 true blk else if c == 1 then Swar.valueKernel 8 true blk
+                              else Swar.matchBlock isTchar blk
       let st := (st.bump s!"cases.swar.c{cl}").bump "nontrivial.swar"
       let st := if n < want then st.bump "swar.conservative" else st
       -- the block kernels may stop early (the loop re-examines byte-wise) but never late
-      (st, if n ≤ want && (c != 2 || n == want) then [] else
-        [mkFail "C12" true "SWAR block kernel ran past an out-of-class byte" caseLine s!"real {n} exact {want}"])
+      (st, (if n ≤ want && (c != 2 || n == want) then [] else
+        [mkFail "C12" true "SWAR block kernel ran past an out-of-class byte" caseLine s!"real {n} exact {want}"]) ++
+        (if mdl == some n then [] else
+        [mkFail "C12" false "SWAR kernel model (Hx/Scan/Swar) disagrees with the real kernel" caseLine s!"real {n} model {mdl}"]))
     | _, _, _ => (st.bump "badline", [s!"BADLINE {caseLine}"])
   | ["classes"] =>
     let want (c : Nat) : String := String.ofList ((List.range 256).map fun i => if clsOf c (UInt8.ofNat i) then '1' else '0')
